@@ -90,11 +90,9 @@ func (f *Intersection) Call(s *slip.Scope, args slip.List, depth int) slip.Objec
 			if keyFunc != nil {
 				k1 = keyFunc.Call(s, slip.List{k1}, d2)
 			}
-			if testFunc == nil {
-				if objInList(k1, keys) {
-					continue
-				}
-			} else if objInListTest(s, k1, keys, testFunc, d2) {
+			// An element already taken is not taken again. The test is for
+			// an element of each list, not for two elements of the first.
+			if objInList(k1, keys) {
 				continue
 			}
 			for _, k2 := range keys2 {
